@@ -72,6 +72,10 @@ impl Check for C18 {
     }
     fn generate(&self, r: &mut Rng, _tier: Tier, st: &mut Stats) -> Trace {
         let width = |r: &mut Rng| -> usize {
+            if r.chance(1, 400) {
+                // beyond the 16-bit range: stops at columns that no single CHA can address
+                return *r.pick(&[65_535usize, 65_536, 65_537, 66_000, 70_000]);
+            }
             match r.below(4) {
                 0 => {
                     let k = 8 * (1 + r.usize_below(17));
@@ -92,7 +96,7 @@ impl Check for C18 {
             match r.below(10) {
                 0..=3 => {
                     let c2 = match r.below(4) {
-                        0 => (c + 8).min(150),
+                        0 => if c > 150 { c + 8 } else { (c + 8).min(150) },
                         1 => c.saturating_sub(1 + r.usize_below(9)).max(1),
                         _ => width(r),
                     };
@@ -104,6 +108,7 @@ impl Check for C18 {
                 4..=7 if customise => {
                     // place the cursor somewhere (incl. column 0 and wrap-pending), then set / clear
                     let place = match r.below(6) {
+                        _ if c > 65_536 && r.chance(1, 2) => format!("\x1b[65535G\x1b[{}C", r.usize_below(c - 65_535)),
                         0 => "\r".to_string(),
                         1 => format!("\r{}", "x".repeat(c)), // wrap pending
                         2 => format!("\x1b[{}G", c),
@@ -118,7 +123,7 @@ impl Check for C18 {
                     evs.push(Event::Feed { s: format!("\r\x1b[{}I\x1b[{}Z\t", n, r.usize_below(4)) });
                 }
                 _ => {
-                    evs.push(Event::Feed { s: (*r.pick(&["abc", "\r\n", "\x1b[?1049h", "\x1b[?1049l", "\x1b[!p", "\x1b[2;3r", "\x1b[?6h"])).to_string() });
+                    evs.push(Event::Feed { s: (*r.pick(&["abc", "\r\n", "\x1b[?1049h", "\x1b[?1049l", "\x1b[!p", "\x1b[2;3r", "\x1b[?6h", "\x1bc", "\x1bc"])).to_string() });
                 }
             }
         }
@@ -242,7 +247,7 @@ impl Check for C18 {
     }
     fn meta(&self) -> Meta {
         Meta {
-            rule: "widths 1..150 biased to 8k-1, 8k, 8k+1; HTS / CTC set and TBC / CTC clear at random columns incl. column 0 and the wrap-pending column; chains of resizes (widening by 8, narrowing, random); then a measurement sweep on forks: CR + HT until the last column, CBT back from the last column, CHT n / CBT n for n in {2,3,7}; oracle: stops visited == the set model (defaults every 8th column, narrowing drops stops >= new width, widening adds every multiple of 8 in [old, new) and keeps survivors); twin: a never-customised terminal tabs like a fresh one of the current width; non-trivial = a measurement after a resize or a customisation; distinct = (width, stops visited)",
+            rule: "widths 1..150 biased to 8k-1, 8k, 8k+1, rarely 65535..70000 (also as resize targets); HTS / CTC set and TBC / CTC clear at random columns incl. column 0 and the wrap-pending column; chains of resizes (widening by 8, narrowing, random); RIS and DECSTR in between; then a measurement sweep on forks: CR + HT until the last column, CBT back from the last column, CHT n / CBT n for n in {2,3,7}; oracle: stops visited == the set model (defaults every 8th column, narrowing drops stops >= new width, widening adds every multiple of 8 in [old, new) and keeps survivors); twin: a never-customised terminal tabs like a fresh one of the current width; non-trivial = a measurement after a resize or a customisation; distinct = (width, stops visited)",
             assumptions: vec!["the column at which HTS / TBC act is the cursor column observed after the previous character (per-character delivery)", "a stop on the last column is indistinguishable from 'no further stop' and treated so", "a run in which avt panics is abandoned"],
             real: vec!["avt::Vt", "avt::parser::Parser (lock-step)"],
             simulated: vec!["App (tab set/clear producer)", "Window (resize chains)", "measurement forks (replay of the event prefix)"],
